@@ -373,8 +373,27 @@ pub fn directed() -> Vec<Request> {
             }
         }
     }
+    // block-like heads x what may follow them: expressions that stop being ONE expression when
+    // spliced at the start of a statement, a block tail or a match arm
+    let mut block_like: Vec<String> = Vec::new();
+    for head in [
+        "{ 1 }", "unsafe { 1 }", "const { 1 }", "async { 1 }", "'a: { 1 }", "if a { 1 } else { 2 }", "match x { _ => 1 }",
+        "loop { break 1 }", "while a {}", "for a in b {}", "m! { 1 }", "m! {}", "a::b! { 1 }", "if let Some(a) = b { a } else { c }",
+    ] {
+        for tail in ["+ 2", "- 1", ".f()", ".0", "as u8", "== 2", "?", "[0]", "(1)", "..", "= 1", "&& b", "| c", "< d", "* e", "&mut f", ".await"] {
+            block_like.push(format!("{head} {tail}"));
+        }
+    }
+    let value_exprs: Vec<&str> = VALUE_EXPRS.iter().copied().chain(block_like.iter().map(|s| s.as_str())).collect();
+    for e in &block_like {
+        out.push(Request {
+            mode: Mode::Attr,
+            attr: "Ord, PartialOrd, Eq, PartialEq, Hash".into(),
+            item: format!("struct X(#[ord(key = {e})] (u8, u8), #[eq(by = {e})] u8);"),
+        });
+    }
     // every value expression as a type-level, variant-level and field-level default
-    for e in VALUE_EXPRS {
+    for e in value_exprs {
         out.push(Request {
             mode: Mode::Attr,
             attr: "Default".into(),
@@ -453,7 +472,16 @@ pub fn directed() -> Vec<Request> {
         for (attr, item) in wide {
             out.push(Request { mode: Mode::Attr, attr: attr.to_string(), item: item.clone() });
             out.push(Request { mode: Mode::Derive, attr: String::new(), item: format!("#[derive_ex({attr})] {item}") });
+            // the same with `dump` in effect: very long diagnostics (tens of kilobytes)
+            out.push(Request { mode: Mode::Attr, attr: format!("{attr}, dump"), item: item.clone() });
+            out.push(Request { mode: Mode::Derive, attr: String::new(), item: format!("#[derive_ex(dump, {attr})] {item}") });
         }
+        // one dumped trait each on a wide struct / enum / impl
+        for tr in ["Add", "Clone", "PartialOrd", "Debug", "Hash", "Default", "SubAssign", "Neg"] {
+            out.push(Request { mode: Mode::Attr, attr: format!("{tr}(dump)"), item: format!("struct X<T> {{ {} }}", (0..n * 3).map(|i| format!("f{i:02}: T")).collect::<Vec<_>>().join(", ")) });
+            out.push(Request { mode: Mode::Attr, attr: format!("{tr}, dump"), item: format!("enum X<T> {{ #[default] D, {} }}", (0..n).map(|i| format!("V{i}(T, u8, String)")).collect::<Vec<_>>().join(", ")) });
+        }
+        out.push(Request { mode: Mode::Attr, attr: "Add, AddAssign, dump".into(), item: format!("impl<{plist}> Add<&X<{plist}>> for &X<{plist}> where {} {{ type Output = X<{plist}>; }}", params.iter().map(|p| format!("{p}: Copy + Add<Output = {p}>")).collect::<Vec<_>>().join(", ")) });
     }
     // field- and variant-level #[derive_ex(..)] entries naming traits that are / are not derived
     // at type level, through both entry points
